@@ -4,10 +4,13 @@ chain breaks a proof obligation at build time.
 
 epoll bits: IN 1, PRI 2, OUT 4, ERR 8, HUP 16 (`<sys/epoll.h>`); tbox bits: read 1, write 2, except 4.
 Kernel contract assumed (Linux `epoll_ctl(2)`): a wait reports, for a registered descriptor, requested
-bits that are ready — and EPOLLERR / EPOLLHUP whether requested or not (`kernelMayReport`).  `select`
-returns a descriptor only in sets it was put into. -/
+bits that are ready — and EPOLLERR / EPOLLHUP whether requested or not (`kernelMayReport`, `epollKernel`).  `select`
+returns a descriptor only in sets it was put into; hang-up and error count as readable, error as writable
+(`selectKernel`).  Round 4 drives both contracts on the real kernel in every run (peer close, peer shutdown, pipe ends
+closed, refused connect: the `K` lines must be what `reportOf` says). -/
 import TboxModel.C03.GenMask
 import TboxModel.C03.AsFound
+import TboxModel.C03.Proofs
 namespace Tbox.C03
 open Gen
 
@@ -63,15 +66,118 @@ interest (select returns a descriptor only in sets it was put into) -/
 theorem C03_select_report_exact :
     ∀ m, m < 8 → selectRequest m = m ∧ selectToTbox m = m := by decide
 
-/-- in the model: the mask of a valid ready entry lies within the interest of its descriptor at the wait
-(the harness produces no error / hang-up condition, see ASSUMPTIONS) -/
-theorem C03_ready_within_interest {be : Backend} {s : State} {r : List (Nat × Nat)} (h : validReady be s r = true) :
-    ∀ fm ∈ r, fm.2 &&& interest be s fm.1 = fm.2 := by
+/-! ### kernel readiness with hang-up / error conditions (round 4) -/
+
+/-- the kernel's poll mask of a descriptor (epoll bit numbering) from its plain readiness `a` (tbox numbering: data to
+read 1, room to write 2, urgent data 4) and the two conditions -/
+def pollOf (a : Nat) (hup err : Bool) : Nat :=
+  (if a &&& 1 != 0 then 1 else 0) ||| (if a &&& 4 != 0 then 2 else 0) ||| (if a &&& 2 != 0 then 4 else 0) |||
+  (if err then 8 else 0) ||| (if hup then 16 else 0)
+
+/-- Linux `ep_item_poll`: the poll mask restricted to what was requested, EPOLLERR and EPOLLHUP always included -/
+def epollKernel (req p : Nat) : Nat := p &&& (req ||| errHup)
+
+/-- Linux `select` (fs/select.c: POLLIN_SET = IN|HUP|ERR, POLLOUT_SET = OUT|ERR, POLLEX_SET = PRI): the sets a descriptor
+that was put into the sets `req` comes back in -/
+def selectKernel (req p : Nat) : Nat :=
+  (if req &&& 1 != 0 && p &&& (1 ||| 16 ||| 8) != 0 then 1 else 0) ||| (if req &&& 2 != 0 && p &&& (4 ||| 8) != 0 then 2 else 0) |||
+  (if req &&& 4 != 0 && p &&& 2 != 0 then 4 else 0)
+
+/-- **the model's report is the kernel contract composed with the engines' own tables** (regenerated from the source):
+for every interest, readiness and condition, `reportOf` = what `OnEventCallback` computes from what the kernel hands
+out for the request `reloadEpoll` / `fillFdSets` made.  (An unregistered descriptor, `m = 0`, is never reported.) -/
+theorem C03_report_is_kernel_then_tables :
+    ∀ m, m < 8 → ∀ a, a < 8 → ∀ hup err : Bool,
+      reportOf .epoll m a hup err = (if m = 0 then 0 else epollToTbox (epollKernel (epollRequest m) (pollOf a hup err))) ∧
+      reportOf .select m a hup err = selectToTbox (selectKernel (selectRequest m) (pollOf a hup err)) := by decide
+
+/-- without a hang-up / error condition both engines report interest ∩ readiness (for every `m`) -/
+theorem reportOf_quiet (be : Backend) (m a : Nat) : reportOf be m a false false = m &&& a := by
+  cases be <;> simp [reportOf]
+
+/-- **what 'ready' means under hang-up and error**, engine by engine: select never reports a condition outside the
+interest; epoll may exceed the interest, but only by read (exactly when the descriptor is hung up) and by except (exactly
+when it has an error condition) — the documented always-on bits.  A registered descriptor that is hung up or in error
+is ALWAYS reported by epoll, whatever the interest (the level-triggered busy loop the source comment speaks of); by
+select only if somebody asked for read (hang-up, error) or write (error). -/
+theorem C03_report_bounds :
+    ∀ m, m < 8 → ∀ a, a < 8 → ∀ hup err : Bool,
+      reportOf .select m a hup err &&& m = reportOf .select m a hup err ∧
+      (reportOf .epoll m a hup err ||| m ||| alwaysOn) = (m ||| alwaysOn) ∧
+      (reportOf .epoll m a hup err ||| m) = (m ||| (if m ≠ 0 ∧ hup then 1 else 0) ||| (if m ≠ 0 ∧ err then 4 else 0)) ∧
+      (m ≠ 0 → (hup || err) = true → reportOf .epoll m a hup err ≠ 0) := by decide
+
+/-- without an error condition everything select reports is also reported by epoll (with one — see the counterexample
+below — select counts the error as readable / writable while epoll hands over `except`) -/
+theorem C03_report_select_within_epoll :
+    ∀ m, m < 8 → ∀ a, a < 8 → ∀ hup : Bool,
+      (reportOf .select m a hup false ||| reportOf .epoll m a hup false) = reportOf .epoll m a hup false := by decide
+
+/-- **the engines diverge on a hung-up peer** (table level): a write-only interest on a descriptor whose peer is closed is
+reported as read|write by epoll and as write by select; an except-only interest on a descriptor in error (write end of a
+pipe without reader) is reported by epoll and never by select -/
+theorem C03_report_backends_counterexample :
+    reportOf .epoll 2 2 true false = 3 ∧ reportOf .select 2 2 true false = 2 ∧
+    reportOf .epoll 4 2 false true = 4 ∧ reportOf .select 4 2 false true = 0 ∧
+    -- a full pipe whose reader is gone: select calls the write subscriber (error counts as writable), epoll hands it
+    -- `except` only, which a write-only event does not meet: it is never called and the loop spins
+    reportOf .epoll 2 0 false true = 4 ∧ reportOf .select 2 0 false true = 2 := by decide
+
+theorem actualMask_lt (s : State) (f : Nat) : actualMask s f < 8 := by
+  unfold actualMask
+  cases s.isOpen f <;> cases s.readable f <;> cases s.writable f <;> cases s.urgent f <;> decide
+
+theorem maskOf_lt (r : Rec) : maskOf r < 8 := by
+  unfold maskOf
+  split <;> split <;> split <;> decide
+
+/-- in every consistent state the interest of either engine is one of the eight masks -/
+theorem interest_lt {s : State} (h : Inv s) (be : Backend) (f : Nat) : interest be s f < 8 := by
+  unfold interest
+  cases hr : s.recs f with
+  | none =>
+    cases be
+    · simp only; rw [(h.norec f hr).1]; decide
+    · simp
+  | some r =>
+    cases be
+    · simp only
+      rcases (h.recs f r hr).kor with hk | hk
+      · rw [hk, (h.recs f r hr).kev]; exact maskOf_lt r
+      · rw [hk]; decide
+    · exact maskOf_lt r
+
+theorem reported_quiet {be : Backend} {s : State} {f : Nat} (hq : quietFd s f = true) :
+    reported be s f = interest be s f &&& actualMask s f := by
+  unfold quietFd at hq
+  simp only [Bool.and_eq_true, Bool.not_eq_eq_eq_not, Bool.not_true] at hq
+  unfold reported
+  rw [hq.1, hq.2]
+  exact reportOf_quiet be _ _
+
+/-- **'ready' in the model**: the mask of a valid ready entry is what the engine reports for the descriptor; on select
+it lies within the interest at the wait; on epoll within interest ∪ {read, except}, and within the interest when the
+descriptor has no hang-up / error condition.  (`C03_only_enabled_ready` then says: the event called was enabled and one
+of ITS conditions is in that mask — so a bit the event did not subscribe never causes its callback, it can only
+accompany one.) -/
+theorem C03_ready_within_interest {be : Backend} {s : State} {r : List (Nat × Nat)} (hi : Inv s) (h : validReady be s r = true) :
+    ∀ fm ∈ r, fm.2 = reported be s fm.1 ∧
+      (be = .select → fm.2 &&& interest be s fm.1 = fm.2) ∧
+      (be = .epoll → (fm.2 ||| interest be s fm.1 ||| alwaysOn) = (interest be s fm.1 ||| alwaysOn)) ∧
+      (quietFd s fm.1 = true → fm.2 &&& interest be s fm.1 = fm.2) := by
   intro fm hfm
   unfold validReady at h
   simp only [Bool.and_eq_true, decide_eq_true_eq, List.all_eq_true, bne_iff_ne, ne_eq, beq_iff_eq] at h
-  have := (h.1.2 fm hfm).2
-  rw [this, Nat.and_comm, ← Nat.and_assoc, Nat.and_self]
+  have e := (h.1.2 fm hfm).2
+  have hm := interest_lt hi be fm.1
+  have ha := actualMask_lt s fm.1
+  refine ⟨e, ?_, ?_, ?_⟩
+  · intro hb; subst hb
+    rw [e]; exact (C03_report_bounds _ hm _ ha _ _).1
+  · intro hb; subst hb
+    rw [e]; exact (C03_report_bounds _ hm _ ha _ _).2.1
+  · intro hq
+    rw [e, reported_quiet hq, Nat.and_comm, ← Nat.and_assoc, Nat.and_self]
 
 theorem and7 : ∀ m, m < 8 → 7 &&& m = m := by decide
 
